@@ -4,6 +4,7 @@
 (patch.diff, demo.py, meta.json).  A change is kept only when the demonstration passes on
 the pristine tree, fails on the changed tree and the pinned suite still passes."""
 import json
+import os
 import re
 import shutil
 import sys
@@ -14,7 +15,7 @@ for log in sys.argv[1:]:
     text = Path(log).read_text()
     for m in re.finditer(r"^=== (C\d\d) m(\d+)\n(.*?)(?=^=== |\Z)", text, re.S | re.M):
         pid, k, body = m.group(1), m.group(2), m.group(3)
-        src = Path(f"/var/tmp/mut_{pid}")
+        src = Path(os.environ.get("MUT_SRC_TEMPLATE", "/var/tmp/mut_{pid}").format(pid=pid))
         ok = ("demo_on_pristine_rc=0" in body and re.search(r"demo_on_changed_rc=[1-9]", body)
               and "missing=0" in body)
         rc = re.search(r"check_rc=(\d+)", body)
